@@ -78,3 +78,88 @@ Example C07_nonvacuous :
   step (exec 2 [5; 6; 7]) 8 = (mkBar 2 4 [], Release [(7, 2)] (8, 3)) /\
   in_queue 8 (queue (exec 2 [5; 6; 7])) = false.
 Proof. vm_compute. repeat split; reflexivity. Qed.
+
+(** ------------------------------------------------------------------------------------------------------------
+    The two-simcall protocol used under the model checker and in replay mode (Barrier::wait() = BARRIER_ASYNC_LOCK
+    then BARRIER_WAIT, any other actor may run in between).  [sexec n ops] is the state after ANY interleaving [ops]
+    of [ALock p] (acquire_async by p) and [AWait p] (wait_for by p on its acquisition), by any number of actors, with
+    any reuse of the barrier; operations an actor cannot issue (ALock while it holds an acquisition, AWait without
+    one or while blocked) are rejected and change nothing.  Arrivals are numbered in ALock order. *)
+
+(* a wait returns (at once, or woken by the ALock of the last of its group) only when the n arrivals of its group
+   kn .. (k+1)n-1 all happened *)
+Theorem C07_split_no_early_return : forall n ops o s' x e, 1 <= n < W32 ->
+  sstep (sexec n ops) o = (s', x) -> In e (returned x) -> n * (snd e / n + 1) <= arrived (s_bar s').
+Proof. exact split_no_early_return. Qed.
+Print Assumptions C07_split_no_early_return.
+
+(* a wait on a live acquisition returns at once iff the group of its arrival is complete and blocks iff it is not *)
+Theorem C07_split_wait_iff_complete : forall n ops p a, 1 <= n < W32 ->
+  let s := sexec n ops in
+  find_acq p (s_acqs s) = Some a -> q_waiting a = false ->
+  (n * (q_idx a / n + 1) <= arrived (s_bar s) -> snd (sstep s (AWait p)) = SReturns (p, q_idx a)) /\
+  (arrived (s_bar s) < n * (q_idx a / n + 1) -> snd (sstep s (AWait p)) = SBlocks).
+Proof. exact split_wait_iff_complete. Qed.
+Print Assumptions C07_split_wait_iff_complete.
+
+(* nobody stays blocked once its group is complete: a blocked waiter is in the queue, its group is incomplete *)
+Theorem C07_split_blocked_incomplete : forall n ops a, 1 <= n < W32 ->
+  let s := sexec n ops in
+  In a (s_acqs s) -> q_waiting a = true ->
+  q_granted a = false /\ In (q_pid a, q_idx a) (queue (s_bar s)) /\ arrived (s_bar s) < n * (q_idx a / n + 1).
+Proof. exact split_blocked_incomplete. Qed.
+Print Assumptions C07_split_blocked_incomplete.
+
+(* at any time the queue is exactly the live acquisitions that are not granted, and these are the arrivals after the
+   last complete group, in arrival order (nothing of a released group counts for the next one) *)
+Theorem C07_split_state : forall n ops, 1 <= n < W32 ->
+  let s := sexec n ops in
+  map key (filter ungranted (s_acqs s)) = queue (s_bar s) /\
+  Z.of_nat (length (queue (s_bar s))) = arrived (s_bar s) mod n /\
+  map snd (queue (s_bar s)) = zseq (n * (arrived (s_bar s) / n)) (length (queue (s_bar s))).
+Proof. exact split_state. Qed.
+Print Assumptions C07_split_state.
+
+(* the ALock of the last of a group is one Release step of the one-simcall protocol on the same queue; the queued
+   ones are either woken (they were blocked in their wait) or marked granted; the barrier is re-armed: empty queue,
+   no live acquisition left ungranted *)
+Theorem C07_split_grant : forall n ops p s' w mk me, 1 <= n < W32 ->
+  let s := sexec n ops in
+  sstep s (ALock p) = (s', SGrant w mk me) ->
+  step (s_bar s) p = (s_bar s', Release (queue (s_bar s)) me) /\
+  (forall e, In e (queue (s_bar s)) <-> In e w \/ In e mk) /\
+  (forall e, In e w <-> In e (queue (s_bar s)) /\ is_waiting (s_acqs s) e = true) /\
+  queue (s_bar s') = [] /\ filter ungranted (s_acqs s') = [] /\ arrived (s_bar s') mod n = 0.
+Proof. exact split_grant. Qed.
+Print Assumptions C07_split_grant.
+
+(* refinement: after any interleaving the barrier is in the state the one-simcall protocol reaches on the accepted
+   ALocks in their order, it rejects none of them, and answers Blocked/Release (same groups) as the split protocol
+   answers Queued/Grant: C07_groups, C07_no_early_return, ... apply to the groups formed under the model checker *)
+Theorem C07_split_refines : forall n ops, 1 <= n < W32 ->
+  let lk := locks (sinit n) ops in
+  s_bar (sexec n ops) = exec n (map fst lk) /\
+  run (init n) (map fst lk) = map snd lk /\
+  Forall (fun o => accepted o = true) (map snd lk).
+Proof. exact split_refines. Qed.
+Print Assumptions C07_split_refines.
+
+(* arrivals are numbered in ALock order *)
+Theorem C07_split_arrival_counter : forall n ops, 1 <= n < W32 ->
+  arrived (s_bar (sexec n ops)) = Z.of_nat (length (locks (sinit n) ops)).
+Proof. exact split_arrival_counter. Qed.
+Print Assumptions C07_split_arrival_counter.
+
+(* non-vacuity: size 2, the interleaving 1:LOCK 2:LOCK 1:WAIT 1:LOCK 1:WAIT 2:WAIT 2:LOCK: actor 2 has locked but
+   not waited when its group completes (marked, not woken); actor 1 re-uses the barrier and must block until actor 2
+   arrives again *)
+Example C07_split_nonvacuous :
+  srun (sinit 2) [ALock 1; ALock 2; AWait 1; ALock 1; AWait 1; AWait 2; ALock 2] =
+    [SQueued; SGrant [] [(1, 0)] (2, 1); SReturns (1, 0); SQueued; SBlocks; SReturns (2, 1); SGrant [(1, 2)] [] (2, 3)] /\
+  sstep (sexec 2 [ALock 1; ALock 2; AWait 1; ALock 1; AWait 1; AWait 2]) (ALock 2) =
+    (mkS (mkBar 2 4 []) [mkAcq 2 3 true false], SGrant [(1, 2)] [] (2, 3)) /\
+  find_acq 1 (s_acqs (sexec 2 [ALock 1; ALock 2; AWait 1; ALock 1])) = Some (mkAcq 1 2 false false) /\
+  In (mkAcq 1 2 false true) (s_acqs (sexec 2 [ALock 1; ALock 2; AWait 1; ALock 1; AWait 1])) /\
+  locks (sinit 2) [ALock 1; ALock 2; AWait 1; ALock 1; AWait 1; AWait 2; ALock 2] =
+    [(1, Blocked); (2, Release [(1, 0)] (2, 1)); (1, Blocked); (2, Release [(1, 2)] (2, 3))].
+Proof. vm_compute. repeat split; try reflexivity. right. left. reflexivity. Qed.
